@@ -46,13 +46,13 @@ type resObs struct {
 }
 
 type c19Case struct {
-	Mode  string   `json:"mode"` // db | reader
-	Opts  dbOpts   `json:"opts"`
-	Steps []dbStep `json:"steps"` // db mode; "reopen" = Close + Open; the program ends with a Close
-	Puts              int  `json:"puts,omitempty"`    // dbbg mode
-	ValLen            int  `json:"val_len,omitempty"` // dbbg mode
-	WaitCompactionDir bool `json:"wait_compaction,omitempty"`
-	Scans []string `json:"scans,omitempty"` // reader mode: full | abandoned | range | mmapseek | seqread | writer
+	Mode              string   `json:"mode"` // db | reader
+	Opts              dbOpts   `json:"opts"`
+	Steps             []dbStep `json:"steps"`             // db mode; "reopen" = Close + Open; the program ends with a Close
+	Puts              int      `json:"puts,omitempty"`    // dbbg mode
+	ValLen            int      `json:"val_len,omitempty"` // dbbg mode
+	WaitCompactionDir bool     `json:"wait_compaction,omitempty"`
+	Scans             []string `json:"scans,omitempty"` // reader mode: full | abandoned | range | mmapseek | seqread | writer
 	// observations
 	After  []resObs `json:"after"` // after every step (db) / every scan (reader)
 	Closed resObs   `json:"closed"`
@@ -69,7 +69,6 @@ func settle(base int) int {
 	}
 	return runtime.NumGoroutine() - base
 }
-
 
 func (c *c19Case) Exec() {
 	defer func() {
@@ -268,7 +267,7 @@ func (c *c19Case) Sx() string {
 }
 
 func (c *c19Case) Nontrivial() bool { return len(c.Steps) >= 5 || len(c.Scans) >= 3 || c.Puts >= 100 }
-func (c *c19Case) Kind() string    { return c.Mode }
+func (c *c19Case) Kind() string     { return c.Mode }
 
 func genC19(r *rand.Rand, tier string) []Case {
 	n := 30
@@ -325,7 +324,11 @@ func genC19(r *rand.Rand, tier string) []Case {
 				c.Steps = append(c.Steps, dbStep{Op: "compact"})
 			}
 			if r.Intn(7) == 0 {
-				c.Steps = append(c.Steps, dbStep{Op: "reopen"})
+				st := dbStep{Op: "reopen"}
+				if r.Intn(2) == 0 {
+					st.Torn = 1 + r.Intn(8) // recovery meets a WAL file whose header was never (completely) written
+				}
+				c.Steps = append(c.Steps, st)
 			}
 		}
 		cases = append(cases, c)
@@ -336,8 +339,8 @@ func genC19(r *rand.Rand, tier string) []Case {
 func init() {
 	register(&Prop{
 		ID: "C19", Num: 19,
-		Gen: genC19,
-		New: func() Case { return &c19Case{} },
+		Gen:  genC19,
+		New:  func() Case { return &c19Case{} },
 		Rule: "database workloads of 3-20 (thorough: up to 200) rotation/flush/compaction cycles with open/close rounds: after EVERY step the descriptors (/proc/self/fd) and mappings (/proc/self/maps) under the database directory and the goroutine count are measured (GC disabled so finalizers cannot hide a leak) and compared with the number of live tables; after Close all must be zero and the directory removable; table-reader / RecordIO reader / writer sequences with complete, abandoned and range scanners, then Close. Non-trivial: >=5 steps or >=3 scanners.",
 	})
 }
